@@ -72,6 +72,12 @@ fn s_subs(prop: &'static str) -> Vec<(SSub, u32, u32, usize)> {
             (ssub("C18", "c18-st", Focus::Clock, None, 40), 120_000, 1_500_000, 16),
             (ssub("C18", "c18-mt", Focus::Clock, Some(4), 30), 4000, 60_000, 4),
         ],
+        // a handler that has started finishes, also when the key of the event it handles is
+        // cancelled meanwhile (class-S cases of the cancellation focus; handlers suspend)
+        "C05" => vec![
+            (ssub("C05", "c05-cancel-st", Focus::Cancel, None, 40), 40_000, 600_000, 16),
+            (ssub("C05", "c05-cancel-mt", Focus::Cancel, Some(4), 30), 2500, 40_000, 4),
+        ],
         _ => vec![],
     }
 }
@@ -98,6 +104,9 @@ fn m_subs(prop: &'static str) -> Vec<(MSub, u32, u32, usize)> {
             (msub("C03", "c03-dag-mt", MFocus::Dag, Some(4)), 4000, 80_000, 4),
             (msub("C03", "c03-cyclic-st", MFocus::Cyclic, None), 10_000, 200_000, 16),
             (msub("C03", "c03-wide-mt", MFocus::Wide, Some(4)), 150, 3000, 4),
+            // recipients connected later through another clone of the port
+            (msub("C03", "c03-clones-st", MFocus::Clones, None), 10_000, 200_000, 16),
+            (msub("C03", "c03-clones-mt", MFocus::Clones, Some(4)), 1500, 30_000, 4),
         ],
         "C04" => vec![
             (msub("C04", "c04-dag-st", MFocus::Dag, None), 30_000, 600_000, 16),
@@ -288,6 +297,10 @@ fn run_property(prop: &'static str, tier: &str, seed: u64) -> i32 {
         }
         "C02" | "C03" | "C04" | "C05" | "C06" | "C14" | "C16" | "C17" => {
             core::set_delay_mode(run_delay_mode(), seed);
+            for (s, q, t, w) in s_subs(prop) {
+                let n = ctx.n(q, t);
+                ctx.run(&s, n, w);
+            }
             for (s, q, t, w) in m_subs(prop) {
                 let n = ctx.n(q, t);
                 ctx.run(&s, n, w);
